@@ -221,6 +221,88 @@ func c15(c *an.Ctx) {
 		}
 		c.Extra["functions_reachable_from_apply"] = nfn
 		r.AddSites(nfn)
+		// (b) map-order dependent picks: a range over a map that is left early (break/return) selects an
+		// arbitrary element; allowed only at the frozen sites whose use of the pick is order-independent
+		pickOK := map[string]string{
+			metaPkg + ":(*Data).CreateShardGroup":                        "picks any measurement of the policy only to read ShardKeys[0].Type, which validMeasurementShardType keeps uniform within a policy (checked below)",
+			metaPkg + ":(*RetentionPolicyInfo).validMeasurementShardType": "compares the new sharding type with any other measurement; uniformity is the inductive invariant (skip only the measurement itself, checked below)",
+		}
+		for fo := range seen {
+			src := c.P.Src(fo)
+			if src == nil || !(an.InPkg(src, SM) || an.InPkg(src, metaPkg)) {
+				continue
+			}
+			f := c.P.Fn(src)
+			ast.Inspect(f.Body, func(n ast.Node) bool {
+				rs, ok := n.(*ast.RangeStmt)
+				if !ok {
+					return true
+				}
+				t := f.Info.TypeOf(rs.X)
+				if t == nil {
+					return true
+				}
+				if _, isMap := t.Underlying().(*types.Map); !isMap {
+					return true
+				}
+				// early exit that depends on which element came first
+				early := false
+				ast.Inspect(rs.Body, func(m ast.Node) bool {
+					switch x := m.(type) {
+					case *ast.FuncLit, *ast.ForStmt, *ast.RangeStmt, *ast.SwitchStmt, *ast.SelectStmt, *ast.TypeSwitchStmt:
+						if m != ast.Node(rs.Body) {
+							// breaks inside nested constructs belong to them (returns still count)
+							ast.Inspect(x, func(k ast.Node) bool {
+								if _, isRet := k.(*ast.ReturnStmt); isRet {
+									early = true
+								}
+								_, isLit := k.(*ast.FuncLit)
+								return !isLit
+							})
+							return false
+						}
+					case *ast.BranchStmt:
+						if x.Tok.String() == "break" {
+							early = true
+						}
+					case *ast.ReturnStmt:
+						early = true
+					}
+					return true
+				})
+				if !early {
+					return true
+				}
+				r.AddSites(1)
+				if reason, ok := pickOK[src.Name()]; ok {
+					r.Except(src.Name()+" map pick", reason)
+					return true
+				}
+				// a search for a specific key/value (the exit is guarded by an equality on the element) is order independent
+				if searchLoop(f, rs) {
+					return true
+				}
+				r.Fail(src.Name()+": map-order pick", c.P.Pos(rs.Pos()), "%s is reachable from an apply handler and leaves a range over a map early without a test of the element: which element it picks depends on the hash-map iteration order, so replicas can diverge", src.Name())
+				return true
+			})
+		}
+		// the uniformity invariant the two frozen picks rely on
+		if f := fn(r, metaPkg+":RetentionPolicyInfo.validMeasurementShardType"); f != nil {
+			pick := f.Find(an.MNode("msti = mst", func(f *an.Fn, n ast.Node) bool {
+				as, ok := n.(*ast.AssignStmt)
+				if !ok || len(as.Lhs) != 1 || len(as.Rhs) != 1 {
+					return false
+				}
+				_, isId := as.Rhs[0].(*ast.Ident)
+				t := f.Info.TypeOf(as.Lhs[0])
+				return isId && t != nil && strings.HasSuffix(t.String(), "meta.MeasurementInfo") && f.LoopBodyEntry(an.Site{Node: as}) >= 0
+			}))
+			f.LoopSelectsAll(r, pick, "every other measurement of the policy can be the one compared: only the measurement itself is skipped",
+				an.AtomLike(`^influx\.GetOriginMstName\(local\(\w+\)\.Name\)==p1$`, true))
+			f.BranchReturns(r, an.AtomLike(`\.ShardKeys\[0\]\.Type==p0$|^p0==.*\.ShardKeys\[0\]\.Type$`, false), an.MReturn("an error", func(f *an.Fn, rs *ast.ReturnStmt) bool {
+				return len(rs.Results) == 1 && !an.IsNilIdent(f.Info, rs.Results[0])
+			}), "different sharding type ⇒ error")
+		}
 	}
 	// ---------------------------------------------------------------- R4
 	{
@@ -441,6 +523,70 @@ func fieldCoverage(c *an.Ctx) {
 			}
 		}
 	}
+	// side condition of the "set from the node's configuration" exceptions: the field is not in snapshots, so
+	// every path from the FSM layer into a reader of the field must re-derive it from the configuration first
+	for _, fname := range []string{"ExpandShardsEnable"} {
+		fld := c.P.Obj(M + ":Data." + fname)
+		if fld == nil {
+			r.Unresolved(M + ":Data." + fname)
+			continue
+		}
+		reach := map[*types.Func]bool{}
+		for _, rd := range c.P.ReadsOf(fld) {
+			if rd.Caller != nil && an.InPkg(rd.Caller, M) {
+				reach[rd.Caller.Obj] = true
+			}
+		}
+		for changed := true; changed; {
+			changed = false
+			for _, d := range c.P.AllDecls() {
+				if !an.InPkg(d, M) || reach[d.Obj] {
+					continue
+				}
+				f := c.P.Fn(d)
+				ast.Inspect(f.Body, func(n ast.Node) bool {
+					if ce, ok := n.(*ast.CallExpr); ok {
+						if cal := an.Callee(f.Info, ce); cal != nil && reach[cal] && !reach[d.Obj] {
+							reach[d.Obj] = true
+							changed = true
+						}
+					}
+					return true
+				})
+			}
+		}
+		nsites := 0
+		for _, d := range c.P.AllDecls() {
+			if !an.InPkg(d, "app/ts-meta/meta") {
+				continue
+			}
+			f := c.P.Fn(d)
+			calls := f.Find(an.MNode("call reaching a reader of Data."+fname, func(f *an.Fn, n ast.Node) bool {
+				ce, ok := n.(*ast.CallExpr)
+				if !ok {
+					return false
+				}
+				cal := an.Callee(f.Info, ce)
+				return cal != nil && reach[cal]
+			}))
+			if calls.Len() == 0 {
+				continue
+			}
+			nsites += calls.Len()
+			set := f.Find(an.MStore("data."+fname+" = config."+fname, fld, func(f *an.Fn, e ast.Expr) bool {
+				return strings.HasSuffix(f.Canon(e), ".config."+fname)
+			}))
+			if set.Len() == 0 {
+				r.Fail(d.Name()+": Data."+fname+" not re-derived", calls.FirstPos(), "%s reaches a reader of Data.%s, which is not part of a snapshot, without first setting it from the configuration: a node restored from a snapshot applies the command differently from a node that applied the whole log", d.Name(), fname)
+				continue
+			}
+			f.Precedes(r, set, calls, an.OrderOpt{Label: "Data." + fname + " set from the configuration before the command that reads it is applied"})
+		}
+		r.AddSites(nsites)
+		if nsites == 0 {
+			r.Fail("Data."+fname+": no reader path", "-", "no FSM-layer call reaches a reader of Data.%s (side condition of its exception would be vacuous)", fname)
+		}
+	}
 	// stale exceptions are notes
 	var unused []string
 	used := map[string]bool{}
@@ -491,4 +637,105 @@ func covExceptions() map[string]string {
 		"MeasurementInfo.tagKeysTotal marshal":        "derived: recomputed from the schema by UnmarshalCleanSchema; not read by any apply handler",
 		"DatabaseBriefInfo.Replicas marshal":          "stand-alone RPC form of the brief info; inside the catalogue (DbPtInfo) all three fields are marshalled by DbPtInfo.Marshal",
 	}
+}
+
+// searchLoop: every early exit of the range body lies behind an equality test
+// that mentions the iteration variables (a search, not an arbitrary pick).
+func searchLoop(f *an.Fn, rs *ast.RangeStmt) bool {
+	vars := map[types.Object]bool{}
+	for _, e := range []ast.Expr{rs.Key, rs.Value} {
+		if id, ok := e.(*ast.Ident); ok {
+			if o := f.Info.Defs[id]; o != nil {
+				vars[o] = true
+			}
+		}
+	}
+	// locals derived from the iteration variables are element-dependent too
+	for changed := true; changed; {
+		changed = false
+		ast.Inspect(rs.Body, func(n ast.Node) bool {
+			as, isAs := n.(*ast.AssignStmt)
+			if !isAs {
+				return true
+			}
+			dep := false
+			for _, rh := range as.Rhs {
+				ast.Inspect(rh, func(m ast.Node) bool {
+					if id, ok := m.(*ast.Ident); ok && vars[f.Info.Uses[id]] {
+						dep = true
+					}
+					return true
+				})
+			}
+			if dep {
+				for _, l := range as.Lhs {
+					if id, ok := l.(*ast.Ident); ok {
+						o := f.Info.Defs[id]
+						if o == nil {
+							o = f.Info.Uses[id]
+						}
+						if o != nil && !vars[o] {
+							vars[o] = true
+							changed = true
+						}
+					}
+				}
+			}
+			return true
+		})
+	}
+	ok := true
+	var visit func(n ast.Node, guarded bool)
+	visit = func(n ast.Node, guarded bool) {
+		switch x := n.(type) {
+		case nil:
+			return
+		case *ast.IfStmt:
+			g := guarded || mentionsVar(f, x.Cond, vars)
+			visit(x.Body, g)
+			if x.Else != nil {
+				visit(x.Else, guarded)
+			}
+			return
+		case *ast.BlockStmt:
+			for _, s := range x.List {
+				visit(s, guarded)
+			}
+			return
+		case *ast.BranchStmt:
+			if x.Tok.String() == "break" && !guarded {
+				ok = false
+			}
+		case *ast.ReturnStmt:
+			if !guarded {
+				ok = false
+			}
+		case *ast.ForStmt:
+			visit(x.Body, guarded)
+		case *ast.RangeStmt:
+			visit(x.Body, guarded)
+		case *ast.SwitchStmt:
+			for _, c := range x.Body.List {
+				cc := c.(*ast.CaseClause)
+				for _, s := range cc.Body {
+					visit(s, guarded || x.Tag != nil)
+				}
+			}
+		}
+	}
+	visit(rs.Body, false)
+	return ok
+}
+
+// mentionsVar: the condition tests a property of the element (existential search:
+// the exit is taken iff some element satisfies it, whatever the order).
+func mentionsVar(f *an.Fn, cond ast.Expr, vars map[types.Object]bool) bool {
+	found := false
+	ast.Inspect(cond, func(m ast.Node) bool {
+		if id, ok := m.(*ast.Ident); ok && vars[f.Info.Uses[id]] {
+			found = true
+		}
+		return true
+	})
+	return found
 }
